@@ -184,25 +184,35 @@ impl ClockShared {
 
 	#[must_use]
 	pub fn ticking(&self) -> bool {
+		#[cfg(kira_verif)]
+		crate::verif::yield_point("clock.shared.ticking.load");
 		self.ticking.load(Ordering::SeqCst)
 	}
 
 	#[must_use]
 	pub fn ticks(&self) -> u64 {
+		#[cfg(kira_verif)]
+		crate::verif::yield_point("clock.shared.ticks.load");
 		self.ticks.load(Ordering::SeqCst)
 	}
 
 	#[must_use]
 	pub fn fractional_position(&self) -> f64 {
+		#[cfg(kira_verif)]
+		crate::verif::yield_point("clock.shared.fraction.load");
 		f64::from_bits(self.fractional_position.load(Ordering::SeqCst))
 	}
 
 	#[must_use]
 	pub fn is_marked_for_removal(&self) -> bool {
+		#[cfg(kira_verif)]
+		crate::verif::yield_point("clock.shared.removed.load");
 		self.removed.load(Ordering::SeqCst)
 	}
 
 	pub fn mark_for_removal(&self) {
+		#[cfg(kira_verif)]
+		crate::verif::yield_point("clock.shared.removed.store");
 		self.removed.store(true, Ordering::SeqCst);
 	}
 }
@@ -285,11 +295,15 @@ impl Clock {
 
 	fn set_ticking(&mut self, ticking: bool) {
 		self.ticking = ticking;
+		#[cfg(kira_verif)]
+		crate::verif::yield_point("clock.set_ticking.store");
 		self.shared.ticking.store(ticking, Ordering::SeqCst);
 	}
 
 	fn reset(&mut self) {
 		self.state = State::NotStarted;
+		#[cfg(kira_verif)]
+		crate::verif::yield_point("clock.reset.store");
 		self.shared.ticks.store(0, Ordering::SeqCst);
 	}
 
@@ -301,7 +315,11 @@ impl Clock {
 				fractional_position,
 			} => (*ticks, *fractional_position),
 		};
+		#[cfg(kira_verif)]
+		crate::verif::yield_point("clock.update_shared.ticks.store");
 		self.shared.ticks.store(ticks, Ordering::SeqCst);
+		#[cfg(kira_verif)]
+		crate::verif::yield_point("clock.update_shared.fraction.store");
 		self.shared
 			.fractional_position
 			.store(fractional_position.to_bits(), Ordering::SeqCst);
